@@ -66,6 +66,10 @@ CLAIMS = {
         text="Bounded: two real process_response calls < 1 s apart on a fresh table (rate 1, window 1): the second response is limited iff neither is exempt (TCP, opcode != QUERY, send_response already false), same address family after IPv4-mapped canonicalisation through the real ReceivedInfo::new, same masked prefix (prefix lengths symbolic 0..=32 / 0..=64 through the real setters), same category, and (category != NOERROR or same QNAME ignoring case / same wildcard source of synthesis). Sources: any IPv4 / any of 2^128 IPv6 addresses per response; RCODE 0..=15 or extended 0..=4095; any opcode and flags. ReceivedInfo::new, the prefix setters and ip_to_dest_u64 additionally alone over all addresses and lengths.",
         note="QNAME / source of synthesis concrete per harness (seven two-label configurations); same stubs as C26; distinct QNAMEs colliding in the 32-bit hash and table size > 1 are outside.",
         ref="DESIGN.md A4.2, B-C27"),
+    "C15": dict(
+        text="Bounded: (a) non-allocating operations on EVERY message of each length 12..=28 (thorough ..=48), all octets symbolic: skip_question, skip_rr, peek_rr (+ rr_type/class/ttl/rdlength/message_to_rr, drop, skip) and their sequences from any reachable cursor: Ok iff an independent reference frames the item, cursor advanced exactly on Ok and unchanged on Err, TTL = RFC 2181 clamp; header accessors on every octet string of length 0..=13; (b) allocating operations (read_question, read_rr, peek+owner+parse) on concrete skeleton messages with symbolic CLASS/TTL/RDLENGTH/RDATA octets, truncated at every length, for opaque types, NS, MX, A (IN, CH, class 2), SOA (thorough): all fields equal the reference incl. decompressed RDATA, failed reads (incl. RDATA invalid for its type, undecodable owner) leave the cursor unchanged.",
+        note="Name STRUCTURE inside the allocating operations is concrete per skeleton (symbolic name structure ran 16+ min / 17 GB without a verdict; decided by C14 on small buffers instead). TYPE is concrete per harness. MINFO/SRV/HINFO/TXT/WKS/AAAA/OPT/TSIG RDATA are covered through Rdata::read in C18, not through the reader. Stub S7.",
+        ref="DESIGN.md A4.2, B-C15"),
 }
 
 GENERIC = dict(
